@@ -137,6 +137,9 @@ func runC19(c *ctx) {
 				if (rt == "cds" || rt == "lds") && r.chance(25) {
 					cl = "dropped"
 				}
+				if i%4 == 1 && rt == "rds" {
+					cl = "old" // in these worlds the sweep empties a whole type (every route table is idle)
+				}
 				sc.entries = append(sc.entries, sweepEntry{rt, n, cl})
 			}
 		}
